@@ -42,11 +42,12 @@ type site struct {
 }
 
 type instr struct {
-	fset      *token.FileSet
-	sites     []site
-	mapLoops  int
+	fset            *token.FileSet
+	sites           []site
+	mapLoops        int
 	mapLoopsSkipped int
-	syncFiles int
+	syncFiles       int
+	steps           int
 }
 
 func main() {
@@ -85,6 +86,15 @@ func main() {
 			if !changed {
 				continue
 			}
+			// inserted statements carry no positions, which lets the printer misplace comments (even into the
+			// middle of a statement); only the comments before the package clause (build constraints) are kept
+			var keep []*ast.CommentGroup
+			for _, cg := range f.Comments {
+				if cg.End() < f.Package {
+					keep = append(keep, cg)
+				}
+			}
+			f.Comments = keep
 			var buf bytes.Buffer
 			if err := format.Node(&buf, p.Fset, f); err != nil {
 				fmt.Fprintln(os.Stderr, "format", name, err)
@@ -151,7 +161,7 @@ func main() {
 
 	b, _ := json.MarshalIndent(map[string]interface{}{"Replace": overlay}, "", " ")
 	os.WriteFile(filepath.Join(*out, "overlay.json"), b, 0o644)
-	sb, _ := json.MarshalIndent(map[string]interface{}{"sites": in.sites, "map_loops_rewritten": in.mapLoops, "map_loops_left_alone": in.mapLoopsSkipped, "files_with_sync_redirected": in.syncFiles, "package_level_variables": globalVars, "sync_atomic_imports": atomicImports}, "", " ")
+	sb, _ := json.MarshalIndent(map[string]interface{}{"sites": in.sites, "map_loops_rewritten": in.mapLoops, "map_loops_left_alone": in.mapLoopsSkipped, "files_with_sync_redirected": in.syncFiles, "package_level_variables": globalVars, "sync_atomic_imports": atomicImports, "statement_steps": in.steps}, "", " ")
 	os.WriteFile(filepath.Join(*out, "sites.json"), sb, 0o644)
 	fmt.Printf("instr: %d files in the overlay, %d access sites, %d map loops rewritten (%d left alone), %d files with sync redirected, %d package-level variables registered, %d sync/atomic imports\n",
 		len(overlay)-2, len(in.sites), in.mapLoops, in.mapLoopsSkipped, in.syncFiles, globalVars, atomicImports)
@@ -352,6 +362,15 @@ func (in *instr) rewriteList(p *packages.Package, list []ast.Stmt) ([]ast.Stmt, 
 	changed := false
 	var out []ast.Stmt
 	for _, s := range list {
+		switch s.(type) {
+		case *ast.CaseClause, *ast.CommClause:
+			// the body of a switch / select: nothing may be inserted between the clauses
+			if in.recurse(p, s) {
+				changed = true
+			}
+			out = append(out, s)
+			continue
+		}
 		// 3. map range rewrite (may replace s)
 		if rs, ok := s.(*ast.RangeStmt); ok {
 			if ns, ok := in.rewriteMapRange(p, rs); ok {
@@ -374,6 +393,10 @@ func (in *instr) rewriteList(p *packages.Package, list []ast.Stmt) ([]ast.Stmt, 
 			out = append(out, in.accessCall(p, s.Pos(), uniq(names), write))
 			changed = true
 		}
+		// 5. statement step (a scheduling point for the statement-grained phase of C18)
+		out = append(out, &ast.ExprStmt{X: &ast.CallExpr{Fun: &ast.SelectorExpr{X: ast.NewIdent("verifrt"), Sel: ast.NewIdent("Step")}}})
+		in.steps++
+		changed = true
 		// recurse into nested blocks and function literals
 		if in.recurse(p, s) {
 			changed = true
@@ -583,6 +606,15 @@ var BlockHook func(label string, waiting func() bool)
 func Point(label string) {
 	if h := PointHook; h != nil {
 		h(label)
+	}
+}
+
+// StepHook is called before every statement of the library (outside init functions).
+var StepHook func()
+
+func Step() {
+	if h := StepHook; h != nil {
+		h()
 	}
 }
 
